@@ -116,6 +116,7 @@ func (o *oracle) observe(op mstore.Op, ob mstore.Obs, before, after mstore.Dump,
 			delete(o.uidvCur, n)
 		}
 	}
+	vs = append(vs, stability(op, ob, before, after)...)
 	// announced UIDs are the ones the messages are found under
 	if ob.Class == "ok" {
 		switch op.Kind {
@@ -169,6 +170,106 @@ func (o *oracle) observe(op mstore.Op, ob mstore.Obs, before, after mstore.Dump,
 	return vs
 }
 
+func hasStr(xs []string, x string) bool {
+	for _, y := range xs {
+		if y == x {
+			return true
+		}
+	}
+	return false
+}
+
+// stability: a UID keeps denoting its message until the message is expunged / moved away / replaced by the connector
+// (or the mailbox goes); UIDNEXT grows by exactly the UIDs that were assigned; and the clauses for the connector's
+// MessageUpdated: a refresh (same literal) leaves the UID table of every mailbox alone that keeps the message, adds it at
+// UIDNEXT to the announced mailboxes that do not have it and removes it from the ones not announced; a replacement
+// removes the old rows and puts the new literal at UIDNEXT of every announced mailbox.
+func stability(op mstore.Op, ob mstore.Obs, before, after mstore.Dump) []violation {
+	var vs []violation
+	effReplace := op.Kind == "connupdate" && op.Replace && op.Lit != ob.OldLit
+	sent := op.Kind == "connupdate" && !ob.Skipped && ob.Class == "ok"
+	mayVanish := func(name string, r mstore.Row) bool {
+		switch op.Kind {
+		case "expunge":
+			return name == op.Name && contains(op.UIDs, r.UID)
+		case "move":
+			return name == op.Name && contains(op.UIDs, r.UID) || name == op.Name2
+		case "copy":
+			return name == op.Name2 // a message already there is taken out and added again under a new UID
+		case "rename", "delete":
+			return true
+		case "connupdate":
+			return sent && r.Lit == ob.OldLit && (effReplace || !hasStr(op.Names, name))
+		}
+		return false
+	}
+	for _, b := range before.Mboxes {
+		a := after.Get(b.Name)
+		if a == nil || a.UIDV != b.UIDV || b.Name == mstore.RecoveryName {
+			continue
+		}
+		nv := fmt.Sprintf("%s|%d", b.Name, b.UIDV)
+		still := map[int]bool{}
+		var fresh []mstore.Row
+		for _, r := range a.Rows {
+			still[r.UID] = true
+			if r.UID >= b.UIDNext {
+				fresh = append(fresh, r)
+			}
+		}
+		gone := 0
+		for _, r := range b.Rows {
+			if !still[r.UID] {
+				gone++
+				if !mayVanish(b.Name, r) {
+					vs = append(vs, violation{Kind: "uid-vanished-without-expunge", Detail: fmt.Sprintf("%s: UID %d (literal %d) is gone after %s", nv, r.UID, r.Lit, op)})
+				}
+			}
+		}
+		// UIDNEXT moves by exactly the UIDs that were assigned (a move within one mailbox assigns and removes)
+		if !(op.Kind == "move" && op.Name2 == b.Name) {
+			okRange := len(fresh) == a.UIDNext-b.UIDNext
+			for i, r := range fresh {
+				okRange = okRange && r.UID == b.UIDNext+i
+			}
+			if !okRange {
+				vs = append(vs, violation{Kind: "uidnext-moved-without-assignment", Detail: fmt.Sprintf("%s: UIDNEXT %d -> %d, %d new UIDs after %s", nv, b.UIDNext, a.UIDNext, len(fresh), op)})
+			}
+		}
+		if !sent {
+			continue
+		}
+		held, announced := hasStr(ob.Holders, b.Name), hasStr(op.Names, b.Name)
+		newLit := ob.OldLit
+		wantFresh, wantGone := 0, 0
+		switch {
+		case effReplace:
+			newLit = op.Lit
+			if held {
+				wantGone = 1
+			}
+			if announced {
+				wantFresh = 1
+			}
+		case held && !announced:
+			wantGone = 1
+		case !held && announced:
+			wantFresh = 1
+		}
+		what := "refresh"
+		if effReplace {
+			what = "replacement"
+		}
+		if len(fresh) != wantFresh || gone != wantGone || a.UIDNext != b.UIDNext+wantFresh {
+			vs = append(vs, violation{Kind: "message-updated-" + what + "-changed-uids", Detail: fmt.Sprintf("%s (held=%v announced=%v): %d new UIDs (expected %d), %d UIDs gone (expected %d), UIDNEXT %d -> %d after %s",
+				nv, held, announced, len(fresh), wantFresh, gone, wantGone, b.UIDNext, a.UIDNext, op)})
+		} else if wantFresh == 1 && fresh[0].Lit != newLit {
+			vs = append(vs, violation{Kind: "message-updated-" + what + "-wrong-bytes", Detail: fmt.Sprintf("%s: UID %d has literal %d, expected %d after %s", nv, fresh[0].UID, fresh[0].Lit, newLit, op)})
+		}
+	}
+	return vs
+}
+
 type c04Case struct {
 	ID    int         `json:"id"`
 	Burn  int         `json:"burn"`
@@ -217,7 +318,7 @@ func genOp(rng *common.Rng, d mstore.Dump, lits *mstore.Literals, nlits int, all
 		return u
 	}
 	for {
-		switch x := rng.Pick(100); {
+		switch x := rng.Pick(109); {
 		case x < 30:
 			rem := "ok"
 			if rng.Chance(0.12) {
@@ -271,6 +372,28 @@ func genOp(rng *common.Rng, d mstore.Dump, lits *mstore.Literals, nlits int, all
 				b = append(b, mstore.BatchMsg{Lit: rng.Pick(nlits), Mboxes: dedupStr(ms)})
 			}
 			return mstore.Op{Kind: "connmsgs", Batch: b}
+		case x >= 100:
+			// the connector sends MessageUpdated for a message: the same literal (flags / mailboxes changed) or a new one
+			if len(withMsgs) == 0 {
+				continue
+			}
+			m := withMsgs[rng.Pick(len(withMsgs))]
+			o := mstore.Op{Kind: "connupdate", Name: m.Name, UIDs: []int{m.Rows[rng.Pick(len(m.Rows))].UID}}
+			if rng.Chance(0.75) {
+				o.Names = append(o.Names, m.Name)
+			}
+			if rng.Chance(0.5) {
+				o.Names = append(o.Names, pick(existing))
+			}
+			if rng.Chance(0.04) {
+				o.Names = append(o.Names, "nowhere")
+			}
+			o.Names = dedupStr(o.Names)
+			if rng.Chance(0.4) {
+				o.Replace, o.Lit = true, rng.Pick(nlits)
+			}
+			o.Flags = []string{"", `\Seen`, `\Flagged \Seen`}[rng.Pick(3)]
+			return o
 		case x < 93:
 			return mstore.Op{Kind: "connbump"}
 		case x < 96:
@@ -338,7 +461,7 @@ func runC04(ctx *common.Ctx) error {
 	if err := newLits(6).Validate(); err != nil {
 		return err
 	}
-	res.Rule = "wire histories of APPEND (remote ok/failing/size) / UID COPY / UID MOVE / expunge (biased to the highest UID) / CREATE / DELETE + re-CREATE / connector batches / UIDVALIDITY bump / restart on the same directories; UID, UIDNEXT, UIDVALIDITY, APPENDUID, COPYUID tracked per (name, uidvalidity, uid) -> literal; non-trivial = distinct histories in which a UID above an expunged highest UID, a re-created name or a restart was observed; plus direct runs of EpochUIDValidityGenerator.Generate against the model"
+	res.Rule = "wire histories of APPEND (remote ok/failing/size) / UID COPY / UID MOVE / expunge (biased to the highest UID) / CREATE / DELETE + re-CREATE / connector batches / connector MessageUpdated (same literal = refresh, other literal = replacement; any announced mailboxes) / UIDVALIDITY bump / restart on the same directories; UID, UIDNEXT, UIDVALIDITY, APPENDUID, COPYUID tracked per (name, uidvalidity, uid) -> literal; a UID disappears only by expunge / move / replacement / un-announcement, UIDNEXT moves by exactly the UIDs assigned; non-trivial = distinct histories in which a UID above an expunged highest UID, a re-created name or a restart was observed; plus direct runs of EpochUIDValidityGenerator.Generate against the model"
 	const nlits = 6
 	var lines []string
 	id := 0
@@ -473,6 +596,28 @@ func runC04(ctx *common.Ctx) error {
 		{Kind: "copy", Name: "a", UIDs: []int{2, 4, 1}, Name2: "b", CreateOK: true, LabelOK: true},
 		{Kind: "move", Name: "a", UIDs: []int{4, 2, 3}, Name2: "b", CreateOK: true, LabelOK: true},
 		{Kind: "move", Name: "b", UIDs: []int{2, 1}, Name2: "b", CreateOK: true, LabelOK: true}}); err != nil {
+		return err
+	}
+	// the connector's MessageUpdated: same literal (nothing but flags / mailboxes may change, no UID moves), a new literal
+	// (a new message above every UID handed out so far), for messages gluon sent to the remote and messages the
+	// connector created; the old UIDs are not handed out again afterwards
+	upd := func(name string, uid int, flags string, to ...string) mstore.Op {
+		return mstore.Op{Kind: "connupdate", Name: name, UIDs: []int{uid}, Flags: flags, Names: to}
+	}
+	repl := func(name string, uid, lit int, to ...string) mstore.Op {
+		return mstore.Op{Kind: "connupdate", Name: name, UIDs: []int{uid}, Replace: true, Lit: lit, Names: to}
+	}
+	if err := fixed("message-updated-refresh", []mstore.Op{ok("create", "a"), app("INBOX", 0), app("INBOX", 1), app("INBOX", 2),
+		upd("INBOX", 2, `\Seen`, "INBOX"), upd("INBOX", 3, "", "INBOX"), upd("INBOX", 2, `\Flagged`, "INBOX", "a"), upd("INBOX", 2, "", "INBOX", "a"),
+		repl("a", 1, 1, "a", "INBOX"), app("INBOX", 3), upd("INBOX", 1, "", "a"), app("a", 4), upd("a", 2, "", "INBOX", "nowhere"), {Kind: "restart"},
+		upd("a", 2, `\Seen`, "a"), app("a", 5), app("INBOX", 5)}); err != nil {
+		return err
+	}
+	if err := fixed("message-updated-replacement", []mstore.Op{ok("create", "a"), app("INBOX", 0), app("INBOX", 1),
+		{Kind: "connmsgs", Batch: []mstore.BatchMsg{{Lit: 2, Mboxes: []string{"INBOX", "a"}}}},
+		repl("INBOX", 2, 3, "INBOX"), app("INBOX", 4), upd("INBOX", 3, `\Seen`, "INBOX", "a"), repl("a", 1, 5, "a"), repl("INBOX", 3, 0, "a"),
+		{Kind: "expunge", Name: "INBOX", UIDs: []int{5}, RemoteOK: true}, repl("INBOX", 4, 1, "INBOX", "a"), upd("a", 3, "", "a"), {Kind: "restart"},
+		repl("a", 3, 2), app("a", 2), app("INBOX", 2)}); err != nil {
 		return err
 	}
 	// MOVE from a snapshot that still shows a message another session has expunged meanwhile (oracle only: the model
@@ -655,6 +800,16 @@ func runC04(ctx *common.Ctx) error {
 			res.Evaluations++
 			res.Count("op:" + o.Kind)
 			res.Count("result:" + ob.Class)
+			if o.Kind == "connupdate" {
+				switch {
+				case ob.Skipped:
+					res.Count("message-updated:not-sent")
+				case o.Replace && o.Lit != ob.OldLit:
+					res.Count("message-updated:replacement:" + ob.Class)
+				default:
+					res.Count("message-updated:refresh:" + ob.Class)
+				}
+			}
 			if ob.Class == "other" {
 				vs = append(vs, violation{Kind: "unexpected-response", Detail: o.String() + ": " + ob.Text})
 			}
